@@ -1221,8 +1221,13 @@ def meta_case(seed, index):
                     nontrivial=False, key="meta:%d:%d" % (seed, index))
     cS, cD, facts = pair
     shape_seed = rng.randrange(1 << 30)
-    oS = observe_build(cS, shape_seed)
-    oD = observe_build(cD, shape_seed)
+    try:
+        oS = observe_build(cS, shape_seed)
+        oD = observe_build(cD, shape_seed)
+    finally:
+        # class names repeat from case to case: keep attrs' unique-filename search short
+        for k in [k for k in linecache.cache if k.startswith("<attrs generated")]:
+            linecache.cache.pop(k, None)
     if _digest(oS.get("hash")) != _digest(oD.get("hash")):
         # whether the copy keeps the hash is only comparable when the two builds hash alike
         for o in (oS, oD):
@@ -1274,7 +1279,7 @@ _dist = Counter()
 def generate(tier, seed):
     rng = random.Random(seed)
     _dist.clear()
-    n_body = 1200 if tier == "quick" else 14000
+    n_body = 1600 if tier == "quick" else 14000
     cases = []
     for _ in range(n_body):
         r = gen_recipe(rng)
